@@ -79,16 +79,24 @@ def run(ctx):
 
     # ---- R2
     st = prog.fn(SV + "::settle_with_policy_internal")
+    APPENDS = r"append_import_candidate$|append_conflict_artifact$|append_plural_artifact$|append_braid_shell$"
+    # the execution body: the closure (or the private function extracted from it) that performs every append
     cl = [prog.fns[c] for c in prog.closures_in(st.id)]
-    body = [c for c in cl if c.call_sites(r"append_import_candidate$|append_conflict_artifact$|append_plural_artifact$|append_braid_shell$")]
-    rep.check(len(body) == 1, "C15.R2", "settle:appends-inside-closure", "all appends live in one closure", "append closures: %d" % len(body), site=st.loc())
-    rep.check(not st.call_sites(r"append_import_candidate$|append_conflict_artifact$|append_plural_artifact$|append_braid_shell$|advance_global_tick$"), "C15.R2", "settle:no-append-outside-closure",
-              "no append outside the guarded closure", "settle appends outside the closure", site=st.loc())
+    body = [c for c in cl if c.call_sites(APPENDS)]
+    call_cl = [bi for bi, t in st.calls() if body and any(a.kind == "agg" and a.key[0] == body[0].id for x in t["args"] for a in st.origins().of_operand(x))] if body else []
+    if not body:
+        for bi, t in st.calls():
+            c_ = st.callee_of(t) or ""
+            if c_ in prog.fns and c_.startswith("warp_core::settlement::") and prog.fns[c_].call_sites(APPENDS) and not st.blocks[bi]["cl"]:
+                body.append(prog.fns[c_])
+                call_cl.append(bi)
+    rep.check(len(body) == 1, "C15.R2", "settle:appends-inside-closure", "all appends live in one execution body (closure or private function)", "execution bodies: %d" % len(body), site=st.loc())
+    rep.check(not st.call_sites(APPENDS + r"|advance_global_tick$"), "C15.R2", "settle:no-append-outside-closure",
+              "no append outside the guarded execution body", "settle appends outside the execution body", site=st.loc())
     snap = [b for b in st.call_sites(r"Clone.*::clone$") if "WorldlineRuntime" in st.blocks[b]["t"]["fn"].get("g", "") + (st.callee_of(st.blocks[b]["t"]) or "")]
     ck = st.call_sites(r"ProvenanceService::checkpoint_for$")
-    call_cl = [bi for bi, t in st.calls() if body and any(a.kind == "agg" and a.key[0] == body[0].id for x in t["args"] for a in st.origins().of_operand(x))] if body else []
     rep.check(bool(snap) and bool(ck) and bool(call_cl) and dominates(st, snap, call_cl) is None and dominates(st, ck, call_cl) is None, "C15.R2", "settle:snapshot-before-execution",
-              "runtime clone and provenance checkpoint precede execution", "snapshot/checkpoint do not dominate the execution closure", site=st.loc())
+              "runtime clone and provenance checkpoint precede execution", "snapshot/checkpoint do not dominate the execution body", site=st.loc())
     ie = st.call_sites(r"Result.*::is_err$")
     rest_rt = [bi for bi, si, place, rv, line in st.assigns() if place[0] == 1 and place[1] == ["*"]]
     rest_pv = st.call_sites(r"ProvenanceService::restore$")
